@@ -323,12 +323,12 @@ func streamOK(r io.Reader) bool {
 //@   ensures  [pos]  inPos(self) == old(inPos(self))+n
 //@   ensures  [data] forall(0, n, func(k int) bool { return p[k] == inByte(self, old(inPos(self))+k) })
 //@   ensures  [err]  err != nil ==> inPos(self) == inEnd(self) && err == inErr(self)
-//@   assigns bytes(p), stream(self)
+//@   assigns bytes(p), instream(self)
 
 //@ iface io.ByteReader.ReadByte() (b byte, err error)
 //@   ensures  [ok]   err == nil ==> old(inPosB(self)) < inEndB(self) && b == inByteB(self, old(inPosB(self))) && inPosB(self) == old(inPosB(self))+1
 //@   ensures  [err]  err != nil ==> inPosB(self) == old(inPosB(self)) && inPosB(self) == inEndB(self) && err == inErrB(self)
-//@   assigns stream(self)
+//@   assigns instream(self)
 
 //@ iface io.Writer.Write(p []byte) (n int, err error)
 //@   ensures  [calls] outCalls(self) == old(outCalls(self))+1
@@ -336,7 +336,7 @@ func streamOK(r io.Reader) bool {
 //@   ensures  [len]   outLen(self) == old(outLen(self))+n
 //@   ensures  [data]  forall(0, n, func(k int) bool { return outByte(self, old(outLen(self))+k) == p[k] })
 //@   ensures  [keep]  forall(0, old(outLen(self)), func(k int) bool { return outByte(self, k) == old(outByte(self, k)) })
-//@   assigns stream(self)
+//@   assigns outstream(self)
 
 // specTail is what the reader appends to the peer's bytes (RFC 7692 §7.2.2: 00 00 ff ff, then an
 // empty final stored block so that the inflater sees the end of the stream).
@@ -373,7 +373,7 @@ func seqRead(p []byte, n, m int, src io.Reader, sp, tp int) bool {
 //@   ensures  [progress] old(r.r) == nil && old(r.pos) < 9 && len(p) > 0 ==> n > 0 && err == nil
 //@   ensures  [end]  old(r.r) == nil && old(r.pos) >= 9 ==> n == 0 && err == io.EOF
 //@   ensures  [inv]  invSuffixed(r)
-//@   assigns r.r, r.pos, bytes(p), stream(r.r)
+//@   assigns r.r, r.pos, bytes(p), instream(r.r)
 
 func isByteReader(r io.Reader) bool {
 	_, ok := r.(io.ByteReader)
@@ -387,7 +387,7 @@ func isByteReader(r io.Reader) bool {
 //@   ensures  [next] err == nil && !(old(r.r) != nil && old(inPos(r.r)) < inEnd(old(r.r))) ==> b == specTailByte(old(r.pos)) && r.pos == old(r.pos)+1 && old(r.pos) < 9 && r.r == nil
 //@   ensures  [end]  old(r.r) == nil || (old(inPos(r.r)) == inEnd(old(r.r)) && inErr(old(r.r)) == io.EOF) ==> (err != nil) == (old(r.pos) >= 9) && (err != nil ==> err == io.EOF && r.pos == old(r.pos))
 //@   ensures  [inv]  invSuffixed(r)
-//@   assigns r.r, r.pos, stream(r.r)
+//@   assigns r.r, r.pos, instream(r.r)
 
 // ---------------------------------------------------------------------------
 // cbuf: the tail-withholding proxy (C12). Abstract view: the bytes that reached dst followed by
@@ -418,7 +418,7 @@ func cbufByte(c *cbuf, j int) byte {
 //@   ensures  [datahead] c.err == nil ==> forall(0, len(p)-4, func(k int) bool { return cbufByte(c, old(outLen(c.dst))+old(c.n)+k) == p[k] })
 //@   ensures  [datatail] c.err == nil ==> forall(iteInt(len(p) > 4, len(p)-4, 0), len(p), func(k int) bool { return cbufByte(c, old(outLen(c.dst))+old(c.n)+k) == p[k] })
 //@   ensures  [inv]    (c.err == nil ==> invCbuf(c)) && c.dst == old(c.dst)
-//@   assigns c.buf, c.n, c.err, stream(c.dst)
+//@   assigns c.buf, c.n, c.err, outstream(c.dst)
 //@   cases held: c.n == 0 | c.n == 1 | c.n == 2 | c.n == 3 | c.n == 4
 //@   cases plen: len(p) == 0 | len(p) == 1 | len(p) == 2 | len(p) == 3 | len(p) == 4 | len(p) > 4
 
